@@ -232,7 +232,8 @@ func (c *Context) Mul(d, x, y *Decimal) (Condition, error) {
 	if res.SystemOverflow() || res.SystemUnderflow() {
 		// The exponent is outside of the package limits and was not stored. d
 		// still has its previous exponent, which has nothing to do with the
-		// product and must not be rounded.
+		// product: the result is not representable.
+		d.Set(decimalNaN)
 		return c.goError(res)
 	}
 	res |= c.round(d, d)
@@ -387,6 +388,13 @@ func (c *Context) Quo(d, x, y *Decimal) (Condition, error) {
 	}
 
 	res |= d.setExponent(c, nd, res, shift, -adjCoeffs, -adjExp10)
+	if res.SystemOverflow() || res.SystemUnderflow() {
+		// The exponent is outside of the package limits and was not stored. d
+		// still has its previous exponent, which has nothing to do with the
+		// quotient: the result is not representable.
+		d.Set(decimalNaN)
+		return c.goError(res)
+	}
 	return c.goError(res)
 }
 
